@@ -132,7 +132,11 @@ def runTrace : Nat → List Nat → Prog Out → St → (Option Fault × Option 
       | some b => if b ∈ s.live then runTrace fuel fl k s else (some (.useAfterFree b), none, s)
     | .emit e k => runTrace fuel fl k (s.onEmit e)
 
+def showFixes (f : Fixes) : String :=
+  String.mk ([f.fmtcopy, f.lsconv, f.wprobe, f.vswrep, f.normtmp, f.reorder, f.compose].map fun b => if b then '1' else '0')
+
 def allocLine (id kind : String) (m : List (String × String)) : String :=
+  if kind = "fixes" then s!"id={id} fx={showFixes current}" else
   match allocProg kind m with
   | none => s!"id={id} err=badop"
   | some p =>
